@@ -76,10 +76,17 @@ def wantLongest (d : DState) (b : Backoffer) : List String :=
 def capBound (d : DState) (name : String) : Int :=
   ((allCfgs d).filter (·.name == name)).foldl (fun a c => max a c.cap) 0
 
+/-- EqualJitter never sleeps less than half of the exponential step of the closure in use (unless cut) -/
+def belowFloor (b : Backoffer) (cfg : Config) (m sl real : Int) : Bool :=
+  match effFn b cfg with
+  | some f => decide (f.jitter = Gen.equalJitter) && !(decide (m ≥ 0) && decide (sl > m)) &&
+              decide (real < Int.tdiv (expo f.base f.cap f.attempts) 2)
+  | none => false
+
 /-- verdict of the property's oracle on the model's own values -/
 def verdict (d : DState) (l : Last) : String :=
   match l.op with
-  | .backoff id cfg m _ _ =>
+  | .backoff id cfg m sl _ =>
     match l.pre.bs[id]?, l.post.bs[id]? with
     | some b, some b' =>
       if b.retired then "ok" else
@@ -102,6 +109,7 @@ def verdict (d : DState) (l : Last) : String :=
         else if budgetExceeded b cfg.name then "FAIL slept-over-budget"
         else if m ≥ 0 ∧ real > m then "FAIL per-call-max"
         else if real > capBound d cfg.name then "FAIL over-cap"
+        else if belowFloor b cfg m sl real then "FAIL below-equal-jitter-floor"
         else if ¬ (b'.maxSleep = b.maxSleep ∧ b'.totalSleep = b.totalSleep + real ∧
                    b'.excludedSleep = b.excludedSleep + (if (excl cfg.name).isSome then real else 0) ∧
                    b'.errorsNum = b.errorsNum + 1 ∧
